@@ -24,6 +24,7 @@ type c16SrvCase struct {
 	Version string // raw JSON of the protocolVersion member ("\x00absent" = member removed)
 	Reg1    int    // bitmask registered before the first initialize: 1 prompt, 2 resource
 	Reg2    int    // additionally registered between the two initializes
+	API     int    // how the resource is registered: 0 RegisterResource, 1 RegisterResources (multi-content), 2 RegisterResourceTemplate only counts as "no resource"
 }
 
 func c16Versions() []string {
@@ -40,7 +41,10 @@ func c16SrvCases(tier string) []c16SrvCase {
 					if tier != "thorough" && r2 != 0 && !strings.HasPrefix(v, `"20`) {
 						continue
 					}
-					out = append(out, c16SrvCase{m, v, r1, r2})
+					out = append(out, c16SrvCase{m, v, r1, r2, 0})
+					if (r1|r2)&2 != 0 && v == `"2025-03-26"` {
+						out = append(out, c16SrvCase{m, v, r1, r2, 1}) // the other registration entry point
+					}
 				}
 			}
 		}
@@ -48,29 +52,34 @@ func c16SrvCases(tier string) []c16SrvCase {
 	return out
 }
 
-func c16Reg(r *Rig, mask int) {
+func c16Reg(r *Rig, mask int, api int) {
 	if mask&1 != 0 {
 		r.RegisterPrompt(&mcp.Prompt{Name: "p"}, func(ctx context.Context, req *mcp.GetPromptRequest) (*mcp.GetPromptResult, error) {
 			return &mcp.GetPromptResult{}, nil
 		})
 	}
-	if mask&2 != 0 {
+	if mask&2 != 0 && api == 0 {
 		r.RegisterResource(&mcp.Resource{Name: "r", URI: "res://r"}, func(ctx context.Context, req *mcp.ReadResourceRequest) (mcp.ResourceContents, error) {
 			return mcp.TextResourceContents{URI: "res://r", Text: "x"}, nil
+		})
+	}
+	if mask&2 != 0 && api == 1 {
+		r.RegisterResources(&mcp.Resource{Name: "r", URI: "res://r"}, func(ctx context.Context, req *mcp.ReadResourceRequest) ([]mcp.ResourceContents, error) {
+			return []mcp.ResourceContents{mcp.TextResourceContents{URI: "res://r", Text: "x"}}, nil
 		})
 	}
 }
 
 func c16SrvEval(tier string, i int) CaseResult {
 	cs := c16SrvCases(tier)[i]
-	cr := CaseResult{Desc: fmt.Sprintf("mode=%s protocolVersion=%s registered=%02b then +%02b", cs.Mode, truncate(cs.Version, 30), cs.Reg1, cs.Reg2), Nontrivial: true}
+	cr := CaseResult{Desc: fmt.Sprintf("mode=%s protocolVersion=%s registered=%02b then +%02b api=%d", cs.Mode, truncate(cs.Version, 30), cs.Reg1, cs.Reg2, cs.API), Nontrivial: true}
 	var viol []explore.Violation
 	obs := &hx.Log{}
 	k := func(s string) string { return fmt.Sprintf("%s:%s:%s", s, cs.Mode, truncate(cs.Version, 24)) }
 	supported := map[string]bool{"2025-03-26": true, "2024-11-05": true}
 	res := vsched.Run(vsched.Config{}, func() {
 		r := NewRig(cs.Mode)
-		c16Reg(r, cs.Reg1)
+		c16Reg(r, cs.Reg1, cs.API)
 		r.Start()
 		check := func(step int, mask int, rp *RawPeer, id string) {
 			params := `{"capabilities":{},"clientInfo":{"name":"c","version":"1"}`
@@ -138,7 +147,7 @@ func c16SrvEval(tier string, i int) CaseResult {
 		}
 		check(1, cs.Reg1, rp1, "i1")
 		if cs.Reg2 != 0 {
-			c16Reg(r, cs.Reg2)
+			c16Reg(r, cs.Reg2, cs.API)
 			rp2 := rp1
 			if cs.Mode != "io" {
 				rp2 = NewRawPeer(r)
